@@ -21,7 +21,7 @@ Ltac prep_guard G :=
 Ltac use_guard G H :=
   try rewrite G in H;
   repeat match goal with E : bind_get _ _ = _ |- _ => rewrite E in H; clear E end;
-  cbv beta iota delta [negb] in H.
+  cbv beta iota delta [negb orb andb] in H; cbn [fst snd] in H.
 
 Ltac guard_body unf :=
   let p := fresh "p" in let w := fresh "w" in let s := fresh "s" in
@@ -78,8 +78,12 @@ Section Guards.
 
   Lemma nbr_guarded : table_guarded tbl_nbr.
   Proof. unfold table_guarded, tbl_nbr. Time gtable_tac ltac:(guard_tac unfold_nbr). Time Qed.
+  (* the vector generators refuse their parameters before any draw: the world comes back as it was *)
+  Ltac unfold_rand2 H :=
+    unfold_rand H;
+    cbv beta iota zeta delta [random_bool_vector_g random_int_vector random_float_vector] in H.
   Lemma rand_guarded instrs : table_guarded (tbl_rand instrs).
-  Proof. unfold table_guarded, tbl_rand. Time gtable_tac ltac:(guard_tac unfold_rand). Time Qed.
+  Proof. unfold table_guarded, tbl_rand. Time gtable_tac ltac:(guard_tac unfold_rand2). Time Qed.
 
   Lemma all_guarded : table_guarded full_table.
   Proof.
